@@ -144,9 +144,9 @@ variable (I : Inst) (profit : Pid → Rat) (init enum : List Pid)
 
 def pdFree : List Pid := enum.filter (fun p => !init.contains p)
 def pdZero : List Pid := (pdFree init enum).filter (fun p => decide (I.cost p = 0) && decide (0 < profit p))
-def pdCands : List Pid := (pdFree init enum).filter (fun p => !decide (I.cost p = 0))
+def pdCands : List Pid := (pdFree init enum).filter (fun p => !decide (I.cost p = 0) && decide (0 ≤ profit p))
 def pdSorted : List Pid :=
-  sortLe (fun a b => decide (profit b / I.cost b ≤ profit a / I.cost a)) (pdCands I init enum)
+  sortLe (fun a b => decide (profit b / I.cost b ≤ profit a / I.cost a)) (pdCands I profit init enum)
 def pdItems : Array Knap.Item :=
   ((pdSorted I profit init enum).map (fun p => (⟨I.cost p, profit p⟩ : Knap.Item))).toArray
 def pdCap : Rat := I.budget - costOf I.cost (init ++ pdZero I profit init enum)
@@ -175,19 +175,20 @@ theorem mem_pdZero (x : Pid) :
     x ∈ pdZero I profit init enum ↔ (x ∈ enum ∧ x ∉ init) ∧ I.cost x = 0 ∧ 0 < profit x := by
   simp [pdZero, mem_pdFree]
 
-theorem mem_pdCands (x : Pid) : x ∈ pdCands I init enum ↔ (x ∈ enum ∧ x ∉ init) ∧ I.cost x ≠ 0 := by
+theorem mem_pdCands (x : Pid) :
+    x ∈ pdCands I profit init enum ↔ (x ∈ enum ∧ x ∉ init) ∧ I.cost x ≠ 0 ∧ 0 ≤ profit x := by
   simp [pdCands, mem_pdFree]
 
-theorem pdSorted_perm : (pdSorted I profit init enum).Perm (pdCands I init enum) := sortLe_perm _ _
+theorem pdSorted_perm : (pdSorted I profit init enum).Perm (pdCands I profit init enum) := sortLe_perm _ _
 
 theorem mem_pdSorted (x : Pid) :
-    x ∈ pdSorted I profit init enum ↔ (x ∈ enum ∧ x ∉ init) ∧ I.cost x ≠ 0 := by
+    x ∈ pdSorted I profit init enum ↔ (x ∈ enum ∧ x ∉ init) ∧ I.cost x ≠ 0 ∧ 0 ≤ profit x := by
   rw [(pdSorted_perm I profit init enum).mem_iff, mem_pdCands]
 
-/-- hypotheses of the lift: what `max_additive_utilitarian_welfare` may assume of its input -/
-structure PDHyp : Prop where
+/-- hypotheses of the lift: what `max_additive_utilitarian_welfare` may assume of its input
+    (nothing is assumed of the profits: total satisfactions may be negative) -/
+structure PDHyp (I : Inst) (profit : Pid → Rat) (init enum : List Pid) : Prop where
   cost_nn : ∀ p ∈ I.projects, 0 ≤ I.cost p
-  profit_nn : ∀ p ∈ I.projects, 0 ≤ profit p
   init_feas : I.isFeasible init = true
   enum_perm : enum.Perm I.projects
   enum_nodup : enum.Nodup
@@ -213,12 +214,12 @@ theorem PDHyp.items_sorted (H : PDHyp I profit init enum) : Knap.Sorted (pdItems
     rw [items_pw I profit init enum i hi]
     have hm := (mem_pdSorted I profit init enum _).mp (PDHyp.getD_mem i hi)
     have := H.cost_nn _ (H.enum_perm.subset hm.1.1)
-    exact lt_of_le_of_ne this (Ne.symm hm.2)
+    exact lt_of_le_of_ne this (Ne.symm hm.2.1)
   · intro i hi
     rw [hsz] at hi
     rw [items_pp I profit init enum i hi]
     have hm := (mem_pdSorted I profit init enum _).mp (PDHyp.getD_mem i hi)
-    exact H.profit_nn _ (H.enum_perm.subset hm.1.1)
+    exact hm.2.2
   · intro i j hij hj
     rw [hsz] at hj
     have hi : i < (pdSorted I profit init enum).length := by omega
@@ -227,7 +228,7 @@ theorem PDHyp.items_sorted (H : PDHyp I profit init enum) : Knap.Sorted (pdItems
       items_pw I profit init enum j hj, items_pp I profit init enum j hj,
       List.getD_eq_getElem _ _ hi, List.getD_eq_getElem _ _ hj]
     rcases Nat.lt_or_eq_of_le hij with hlt | rfl
-    · have := sortLe_desc (fun p => profit p / I.cost p) (pdCands I init enum)
+    · have := sortLe_desc (fun p => profit p / I.cost p) (pdCands I profit init enum)
       exact (List.pairwise_iff_getElem.mp this) i j hi hj hlt
     · exact le_refl _
 
@@ -321,7 +322,7 @@ theorem PDHyp.nodup (H : PDHyp I profit init enum) (hinit : init.Nodup) :
     have hb' := (mem_pdSorted I profit init enum a).mp (htm a hb)
     rcases List.mem_append.mp ha with ha | ha
     · exact hb'.1.2 ha
-    · exact hb'.2 ((mem_pdZero I profit init enum a).mp ha).2.1
+    · exact hb'.2.1 ((mem_pdZero I profit init enum a).mp ha).2.1
 
 theorem PDHyp.projects_nodup (H : PDHyp I profit init enum) : I.projects.Nodup :=
   H.enum_perm.nodup_iff.mp H.enum_nodup
@@ -339,9 +340,10 @@ theorem PDHyp.cand_facts (H : PDHyp I profit init enum) {s : List Pid}
 /-- the indicator (over positions of the sorted candidate list) of a set of projects -/
 def indOfProjects (L s : List Pid) : Nat → Bool := fun i => decide (L.getD i 0 ∈ s)
 
-/-- sums over positions selected by `indOfProjects` are sums over the positive-cost part of `s` -/
+/-- sums over positions selected by `indOfProjects` are sums over the positive-cost part of `s`
+    (for a set `s` of projects of non-negative profit: exactly those are knapsack items) -/
 theorem PDHyp.ind_sum (H : PDHyp I profit init enum) {s : List Pid} (hnd : s.Nodup)
-    (hmem : ∀ x ∈ s, x ∈ I.projects ∧ x ∉ init) (h : Pid → Rat) :
+    (hmem : ∀ x ∈ s, x ∈ I.projects ∧ x ∉ init) (hnn : ∀ x ∈ s, 0 ≤ profit x) (h : Pid → Rat) :
     (∑ i ∈ range (pdSorted I profit init enum).length,
         if indOfProjects (pdSorted I profit init enum) s i then h ((pdSorted I profit init enum).getD i 0) else 0)
       = sumOver (s.filter (fun p => !decide (I.cost p = 0))) h := by
@@ -353,16 +355,17 @@ theorem PDHyp.ind_sum (H : PDHyp I profit init enum) {s : List Pid} (hnd : s.Nod
   intro x
   rw [List.mem_filter, List.mem_filter, mem_pdSorted]
   constructor
-  · rintro ⟨⟨_, hc⟩, hx⟩
+  · rintro ⟨⟨_, hc, _⟩, hx⟩
     exact ⟨by simpa using hx, by simpa using hc⟩
   · rintro ⟨hx, hc⟩
     have := hmem x hx
-    exact ⟨⟨⟨H.enum_perm.mem_iff.mpr this.1, this.2⟩, by simpa using hc⟩, by simpa using hx⟩
+    exact ⟨⟨⟨H.enum_perm.mem_iff.mpr this.1, this.2⟩, by simpa using hc, hnn x hx⟩, by simpa using hx⟩
 
-/-- upper-bound half of optimality: no feasible extension of `init` has more profit than what
-    the zero-cost projects plus the knapsack value give -/
-theorem PDHyp.upper (H : PDHyp I profit init enum) {s : List Pid}
+/-- upper bound for extensions made of projects of non-negative profit: such a feasible extension of
+    `init` has no more profit than what the zero-cost projects plus the knapsack value give -/
+theorem PDHyp.upper_nn (H : PDHyp I profit init enum) {s : List Pid}
     (hs : s ∈ sublists (I.projects.filter (fun p => !init.contains p)))
+    (hnn : ∀ x ∈ s, 0 ≤ profit x)
     (hf : I.isFeasible (init ++ s) = true) :
     sumOver s profit ≤ sumOver (pdZero I profit init enum) profit +
       (Knap.solve (pdItems I profit init enum) (pdCap I profit init enum)).1 := by
@@ -377,7 +380,7 @@ theorem PDHyp.upper (H : PDHyp I profit init enum) {s : List Pid}
       obtain ⟨hx1, hx2⟩ := List.mem_filter.mp hx
       have hxs := (List.mem_filter.mp hx1).1
       have h1 : ¬ 0 < profit x := by simpa using hx2
-      have h2 := H.profit_nn x (hmem x hxs).1
+      have h2 := hnn x hxs
       linarith
     rw [h0, add_zero]
     apply sumOver_le_of_subset profit ((hnd.filter _).filter _) H.zero_nodup
@@ -390,8 +393,8 @@ theorem PDHyp.upper (H : PDHyp I profit init enum) {s : List Pid}
     · intro x hx
       exact le_of_lt ((mem_pdZero I profit init enum x).mp hx).2.2
   · -- positive-cost part: a feasible indicator for the knapsack
-    have hP := H.ind_sum hnd hmem profit
-    have hW := H.ind_sum hnd hmem I.cost
+    have hP := H.ind_sum hnd hmem hnn profit
+    have hW := H.ind_sum hnd hmem hnn I.cost
     have hsz := items_size I profit init enum
     have hPY : profitY (pdItems I profit init enum) (indOfProjects (pdSorted I profit init enum) s)
         = sumOver (s.filter (fun p => !decide (I.cost p = 0))) profit := by
@@ -418,6 +421,65 @@ theorem PDHyp.upper (H : PDHyp I profit init enum) {s : List Pid}
     unfold costOf
     linarith
 
+/-! ### projects of negative profit are never needed -/
+
+/-- dropping the projects of negative profit does not lower the welfare (no hypothesis) -/
+theorem sumOver_le_dropNeg (profit : Pid → Rat) (s : List Pid) :
+    sumOver s profit ≤ sumOver (s.filter (fun p => decide (0 ≤ profit p))) profit := by
+  induction s with
+  | nil => exact le_refl _
+  | cons a l ih =>
+    by_cases h : 0 ≤ profit a
+    · rw [List.filter_cons_of_pos (by simpa using h)]; simp only [sumOver]; linarith
+    · rw [List.filter_cons_of_neg (by simpa using h)]; simp only [sumOver]
+      have := not_le.mp h
+      linarith
+
+/-- dropping any projects from a list of projects of non-negative cost does not raise its cost -/
+theorem costOf_filter_le (cost : Pid → Rat) (q : Pid → Bool) (s : List Pid) (hc : ∀ x ∈ s, 0 ≤ cost x) :
+    sumOver (s.filter q) cost ≤ sumOver s cost := by
+  induction s with
+  | nil => exact le_refl _
+  | cons a l ih =>
+    have ih := ih (fun x hx => hc x (List.mem_cons_of_mem _ hx))
+    have ha := hc a List.mem_cons_self
+    by_cases h : q a = true
+    · rw [List.filter_cons_of_pos h]; simp only [sumOver]; linarith
+    · rw [List.filter_cons_of_neg h]; simp only [sumOver]; linarith
+
+/-- **the new ingredient**: from a feasible extension `init ++ s` of the initial allocation, dropping the
+    projects of negative profit gives again a candidate extension, which is still feasible (costs are
+    non-negative), consists of projects of non-negative profit, and has at least the same welfare -/
+theorem PDHyp.dropNeg (H : PDHyp I profit init enum) {s : List Pid}
+    (hs : s ∈ sublists (I.projects.filter (fun p => !init.contains p)))
+    (hf : I.isFeasible (init ++ s) = true) :
+    s.filter (fun p => decide (0 ≤ profit p)) ∈ sublists (I.projects.filter (fun p => !init.contains p)) ∧
+    (∀ x ∈ s.filter (fun p => decide (0 ≤ profit p)), 0 ≤ profit x) ∧
+    I.isFeasible (init ++ s.filter (fun p => decide (0 ≤ profit p))) = true ∧
+    sumOver s profit ≤ sumOver (s.filter (fun p => decide (0 ≤ profit p))) profit := by
+  obtain ⟨_, hmem⟩ := H.cand_facts hs
+  refine ⟨(mem_sublists _ _).mpr (List.filter_sublist.trans ((mem_sublists _ _).mp hs)), ?_, ?_,
+    sumOver_le_dropNeg profit s⟩
+  · intro x hx
+    simpa using (List.mem_filter.mp hx).2
+  · unfold Inst.isFeasible Inst.totalCost costOf at hf ⊢
+    have hf := of_decide_eq_true hf
+    apply decide_eq_true
+    rw [sumOver_append] at hf ⊢
+    have := costOf_filter_le I.cost (fun p => decide (0 ≤ profit p)) s
+      (fun x hx => H.cost_nn x (hmem x hx).1)
+    linarith
+
+/-- upper-bound half of optimality: no feasible extension of `init` has more profit than what
+    the zero-cost projects plus the knapsack value give -/
+theorem PDHyp.upper (H : PDHyp I profit init enum) {s : List Pid}
+    (hs : s ∈ sublists (I.projects.filter (fun p => !init.contains p)))
+    (hf : I.isFeasible (init ++ s) = true) :
+    sumOver s profit ≤ sumOver (pdZero I profit init enum) profit +
+      (Knap.solve (pdItems I profit init enum) (pdCap I profit init enum)).1 := by
+  obtain ⟨hs', hnn, hf', hle⟩ := H.dropNeg hs hf
+  exact le_trans hle (H.upper_nn hs' hnn hf')
+
 theorem PDHyp.value (H : PDHyp I profit init enum) :
     sumOver (primalDual I profit init enum) profit = sumOver init profit +
       (sumOver (pdZero I profit init enum) profit +
@@ -438,7 +500,7 @@ theorem PDHyp.added_perm (H : PDHyp I profit init enum) :
     refine List.nodup_append.mpr ⟨H.zero_nodup, htn, ?_⟩
     intro a ha b hb hab
     subst hab
-    exact ((mem_pdSorted I profit init enum a).mp (htm a hb)).2 ((mem_pdZero I profit init enum a).mp ha).2.1
+    exact ((mem_pdSorted I profit init enum a).mp (htm a hb)).2.1 ((mem_pdZero I profit init enum a).mp ha).2.1
   unfold pdAdded
   rw [List.perm_ext_iff_of_nodup ((H.projects_nodup.filter _).filter _) hzt]
   intro x
